@@ -8,6 +8,7 @@ import (
 	"io"
 	"os"
 	"path/filepath"
+	"regexp"
 	"sort"
 	"strings"
 
@@ -178,6 +179,11 @@ func genC01Prog(c *Ctx) {
 		if !c.Mine() {
 			return
 		}
+		if needsUnboundedMemory(src) {
+			c.Em.Emit(Rec{Impl: "not-run", Src: src, Skip: "asks-for-a-value-of-unbounded-size", Tags: []string{tag}})
+			return
+		}
+		traceInput(src)
 		o := c.It.Run(src, stdin)
 		rec := Rec{Impl: o.Kind, Src: src, NT: o.Kind != "syntax", Tags: []string{tag, "outcome-" + o.Kind}}
 		if o.Kind == "fuel" {
@@ -234,6 +240,11 @@ func genC01Prog(c *Ctx) {
 			continue
 		}
 		entry := []string{"RunSource", "StartREPL", "RunTest"}[i%3]
+		if needsUnboundedMemory(src) {
+			c.Em.Emit(Rec{Impl: "not-run", Src: src, Skip: "asks-for-a-value-of-unbounded-size", Tags: []string{"entry-" + entry}})
+			continue
+		}
+		traceInput(entry + ": " + src)
 		res := func() (r string) {
 			defer func() {
 				evaluator.VerifSetFuel(-1)
@@ -268,3 +279,17 @@ func genC01Prog(c *Ctx) {
 		c.Em.Emit(rec)
 	}
 }
+
+// traceInput records the input about to be evaluated in the file named by VERIF_TRACE (read by the orchestrator when
+// the process dies or has to be stopped)
+func traceInput(src string) {
+	if p := os.Getenv("VERIF_TRACE"); p != "" {
+		os.WriteFile(p, []byte(src), 0o644)
+	}
+}
+
+// the property excludes programs that need unbounded memory: a repetition / power / padding whose count is a number of
+// seven or more digits is not evaluated (`[1, 2, 3] * 9223372036854775807` is 3 * 2^63 elements by definition)
+var unboundedRe = regexp.MustCompile(`(\*\*?|\.times|just|center|\.repeat)\s*\(?\s*-?[0-9_]{7,}|[0-9_]{7,}\s*\)?\s*\*`)
+
+func needsUnboundedMemory(src string) bool { return unboundedRe.MatchString(src) }
